@@ -9,6 +9,7 @@ import (
 	"io"
 	"math"
 	"os"
+	"path/filepath"
 	"regexp"
 	"sort"
 	"strconv"
@@ -287,13 +288,13 @@ func shortKey(key string) string {
 
 func isSentinelKey(key string) bool { return strings.HasPrefix(shortKey(key), "~") }
 
-func newRig(t testing.TB, run *ev.Run, cfg rigCfg, stepMode bool) *rig {
+func newRig(t testing.TB, run *ev.Run, base string, cfg rigCfg, stepMode bool) *rig {
 	installSeams()
 	r := &rig{t: t, run: run, cfg: cfg, stepMode: stepMode,
 		gens:    &gens{sizes: map[int32]int{}, keys: map[int32]string{}},
 		creates: map[string]int{}}
 	r.sid = "r" + strconv.FormatInt(rigSeq.Add(1), 10)
-	r.dir = ev.TempDir(t, "c09-")
+	r.dir = filepath.Join(base, r.sid)
 	if cfg.Workers == 0 {
 		r.cfg.Workers = 1
 	}
@@ -610,6 +611,10 @@ func (r *rig) position(short string) string {
 	case r.holdsKey == "":
 		return "idle"
 	case r.holdsKey == short:
+		if r.creates[short] > r.holdsGenN {
+			// the worker holds the flush of an older generation of this key
+			return "self-stale:" + r.holdsAt
+		}
 		return "self:" + r.holdsAt
 	}
 	return "other:" + r.holdsAt
@@ -671,15 +676,30 @@ func (r *rig) reapSentinels() {
 // work.
 func (r *rig) mutated() { r.mutCount++ }
 
-// step releases the parked flush worker and waits until it parks again at the
-// next point of a real key. It returns false when the worker has no real work
-// left (it is then parked at the start of a sentinel enqueued after the last
-// mutating client operation).
-func (r *rig) step() bool {
-	for {
-		if r.curSent != nil && r.curSent.mut == r.mutCount {
-			return false // nothing can have been queued behind this sentinel
+func (r *rig) hasQueuedRealWork() bool {
+	for _, k := range tiered.VerifC09FlusherTracked(r.st) {
+		if !isSentinelKey(k) {
+			return true
 		}
+	}
+	return false
+}
+
+// canStep reports whether the flush worker has a step to take: it is parked
+// inside the flush of a real key, or parked at a sentinel with real work queued.
+func (r *rig) canStep() bool {
+	if r.curSent == nil {
+		return true
+	}
+	return r.hasQueuedRealWork()
+}
+
+// step releases the parked flush worker and waits until it parks again: at the
+// next point of a real key, or (when it ran out of real work) at the start of
+// a sentinel. Leaving the last point of a flush (the unban) is a step too; its
+// completion is what the arrival at the sentinel proves.
+func (r *rig) step() {
+	for i := 0; ; i++ {
 		fresh := false
 		for _, s := range r.pending {
 			if s.mut == r.mutCount {
@@ -689,12 +709,20 @@ func (r *rig) step() bool {
 		if !fresh {
 			r.enqueueSentinel()
 		}
+		wasReal := r.curSent == nil
 		r.cur.Release()
 		a := r.next()
 		r.arrived(a)
 		r.reapSentinels()
-		if r.curSent == nil {
-			return true
+		if wasReal || r.curSent == nil {
+			return
+		}
+		// sentinel -> sentinel: the queue only held aborted entries
+		if !r.hasQueuedRealWork() {
+			return
+		}
+		if i > 50 {
+			panic(abortSchedule{"flush worker keeps skipping queue entries"})
 		}
 	}
 }
@@ -703,7 +731,8 @@ func (r *rig) step() bool {
 // steps taken.
 func (r *rig) drain() int {
 	n := 0
-	for r.step() {
+	for r.canStep() {
+		r.step()
 		n++
 		if n > 500 {
 			panic(abortSchedule{"flusher did not become idle within 500 steps"})
